@@ -323,6 +323,14 @@ pub fn gen_c12(rng: &mut Rng, tier: Tier) -> NetProgram {
             prog.modules[v].catching = rng.chance(1, 2);
         }
     }
+    // the run may be stopped by a limit with events still pending: tear-down happens all the same
+    if rng.chance(1, 6) {
+        if rng.chance(1, 2) {
+            prog.max_events = 1 + rng.below(12);
+        } else {
+            prog.max_time_ns = rng.below(20) * SEC + 1;
+        }
+    }
     // a little ordinary traffic so that "after the last event" means something
     if nmod >= 2 && rng.chance(2, 3) {
         let a = rng.usize(nmod);
@@ -640,6 +648,14 @@ pub fn gen_c09(rng: &mut Rng, tier: Tier) -> NetProgram {
             prog.modules[v].beats.sort_by_key(|b| b.at_ns);
         }
     }
+    // crash-and-reboot: a handler requests a restart and then panics in the same event
+    if rng.chance(1, 8) {
+        let v = rng.usize(total);
+        if let Some(b) = prog.modules[v].beats.iter_mut().find(|b| b.acts.iter().any(|a| matches!(a, Act::Shutdown { restart, .. } if *restart >= 0))) {
+            b.acts.push(Act::Panic);
+            prog.modules[v].crash_reboot = true;
+        }
+    }
     for m in &mut prog.modules {
         m.tasks = crate::asy::gen_tasks_c09(rng);
         // user reset code may itself fail: the old incarnation must be gone all the same
@@ -670,6 +686,12 @@ pub fn gen_c13(rng: &mut Rng, tier: Tier) -> NetProgram {
                 let bi = rng.usize(prog.modules[v].beats.len());
                 let pos = rng.usize(prog.modules[v].beats[bi].acts.len() + 1);
                 prog.modules[v].beats[bi].acts.insert(pos, Act::Panic);
+                // the callback may change the module's stereotype right before it panics: what counts is the stereotype
+                // at the time of the panic
+                if rng.chance(1, 4) {
+                    let nv = !prog.modules[v].catching;
+                    prog.modules[v].beats[bi].acts.insert(pos, Act::SetCatching { v: nv });
+                }
             }
             _ => prog.modules[v].rx.push(RxRule { nth: 1 + rng.below(4) as u32, act: Act::Panic }),
         }
@@ -854,6 +876,10 @@ pub fn gen_c20(rng: &mut Rng, tier: Tier) -> NetProgram {
     if rng.chance(1, 4) {
         let v = rng.usize(nmod);
         prog.modules[v].end_acts = vec![if rng.chance(1, 2) { Act::SelfMsg { delay_ns: rng.below(4) * SEC / 4 } } else { Act::Send { gate: rng.below(4) as u32, delay_ns: rng.below(2) * SEC / 4, body: 1 } }];
+    }
+    // des's own module blocks with pending tasks / captured state
+    for _ in 0..rng.small(2) {
+        prog.blocks.push(1 + rng.below(4) as u8);
     }
     // user code that looks at the global view of the simulation
     if rng.chance(1, 3) {
